@@ -19,14 +19,14 @@ import (
 )
 
 type c16Case struct {
-	Rev       int      `json:"rev"`
-	B64       bool     `json:"b64"`
-	JSONP     bool     `json:"jsonp"`
-	J         string   `json:"j"`
-	AcceptEnc string   `json:"accept_encoding"`
-	Threshold int      `json:"threshold"`
+	Rev       int        `json:"rev"`
+	B64       bool       `json:"b64"`
+	JSONP     bool       `json:"jsonp"`
+	J         string     `json:"j"`
+	AcceptEnc string     `json:"accept_encoding"`
+	Threshold int        `json:"threshold"`
 	Batches   [][]outMsg `json:"batches"`
-	Seed      string   `json:"seed"`
+	Seed      string     `json:"seed"`
 }
 
 var c16AE = []string{"", "gzip", "deflate", "br", "zstd", "gzip, deflate", "br;q=1.0, gzip;q=0.5", "identity", "*", "x-br-custom", "xgzip", "bread, undeflated", "GZIP", "GZip", "DEFLATE;q=0.8", "Br", "ZStd", "gzip;q=0", "compress, zstd"}
